@@ -10,6 +10,7 @@
 import builtins
 import errno
 import io
+import os
 import types
 
 import numpy as np
@@ -187,6 +188,20 @@ class _SimWriter(io.RawIOBase):
         return self._closed
 
 
+def sim_path(p):
+    """Simulated paths carry the marker "sim:"; code under test may have made them absolute or resolved them
+    (os.path.abspath/realpath prepend the working directory) - the part from the marker on identifies the file."""
+    try:
+        p = os.fspath(p)
+    except TypeError:
+        return None
+    if isinstance(p, bytes):
+        p = p.decode("utf-8", "replace")
+    if isinstance(p, str) and "sim:" in p:
+        return "sim:" + p.split("sim:", 1)[1]
+    return None
+
+
 class SimOS(types.ModuleType):
     """`os` as seen by pyoma2.functions.gen, should a future version use it around saving
     (write to a temporary file, fsync, rename): "sim:" paths live in the SimFS, everything else is real."""
@@ -200,26 +215,25 @@ class SimOS(types.ModuleType):
     def __getattr__(self, name):
         return getattr(object.__getattribute__(self, "_real"), name)
 
-    def _is(self, p):
-        return isinstance(p, str) and p.startswith("sim:")
-
     def replace(self, src, dst, *a, **k):
-        if self._is(src) or self._is(dst):
+        s_, d_ = sim_path(src), sim_path(dst)
+        if s_ is not None or d_ is not None:
             fs = self._fs
             fs.plan.tick("fs.rename")
-            if src not in fs.files:
+            if s_ not in fs.files:
                 raise FileNotFoundError(errno.ENOENT, "simulated: no such file", src)
-            fs.files[dst] = fs.files.pop(src)
+            fs.files[d_] = fs.files.pop(s_)
             return None
         return self._real.replace(src, dst, *a, **k)
 
     rename = replace
 
     def remove(self, p, *a, **k):
-        if self._is(p):
-            if p not in self._fs.files:
+        p_ = sim_path(p)
+        if p_ is not None:
+            if p_ not in self._fs.files:
                 raise FileNotFoundError(errno.ENOENT, "simulated: no such file", p)
-            del self._fs.files[p]
+            del self._fs.files[p_]
             return None
         return self._real.remove(p, *a, **k)
 
@@ -239,11 +253,29 @@ class _SimOSPath:
         return getattr(self._real, name)
 
     def exists(self, p):
-        if isinstance(p, str) and p.startswith("sim:"):
-            return p in self._fs.files
+        p_ = sim_path(p)
+        if p_ is not None:
+            return p_ in self._fs.files
         return self._real.exists(p)
 
     isfile = exists
+
+    def lexists(self, p):
+        return self.exists(p)
+
+    def isdir(self, p):
+        p_ = sim_path(p)
+        if p_ is not None:
+            return p_.rstrip("/") in ("sim:", "sim:/") or p_.endswith("/")
+        return self._real.isdir(p)
+
+    def getsize(self, p):
+        p_ = sim_path(p)
+        if p_ is not None:
+            if p_ not in self._fs.files:
+                raise FileNotFoundError(errno.ENOENT, "simulated: no such file", p)
+            return len(self._fs.files[p_])
+        return self._real.getsize(p)
 
 
 class _SimReader(io.BytesIO):
@@ -284,14 +316,17 @@ class SimFS:
 
     def open(self, path, mode="r", *a, **k):
         self.opens += 1
-        path = str(path)
-        if not path.startswith("sim:"):
+        sp = sim_path(path)
+        if sp is None:
             # anything else (matplotlib fonts, ...) is not ours
             return builtins.open(path, mode, *a, **k)
+        path = sp
         self.plan.tick("fs.open")
-        if "w" in mode:
+        if "w" in mode or "x" in mode:
             if "b" not in mode:
                 raise ValueError("SimFS: only binary writes are simulated")
+            if "x" in mode and path in self.files:
+                raise FileExistsError(errno.EEXIST, "simulated: file exists", path)
             return _SimWriter(self, path)
         if path not in self.files:
             raise FileNotFoundError(errno.ENOENT, "simulated: no such file", path)
